@@ -329,6 +329,9 @@ impl Package {
 
         // If RPMSIGTAG_OPENPGP exists, then the other tags (which should contain the same info) are not checked
         if let Ok(openpgp_signatures) = openpgp_sigs {
+            if openpgp_signatures.is_empty() {
+                return Err(Error::NoSignatureFound);
+            }
             for base64_sig in openpgp_signatures.iter() {
                 let signature = decode_sig(base64_sig)?;
                 signature::echo_signature("signature_header(header only)", &signature);
